@@ -18,17 +18,17 @@ ASSUMPTIONS = [
     'does not claim it)',
 ]
 
-HEAD = b'#diffx: encoding=utf-8, version=1.0\n'
+HEAD = b'#diffx: version=1.0, encoding=utf-8\n'          # (version first: a cut after it leaves a valid shorter header)
 
 
 def skeleton(kind, content):
     """(bytes before the symbolic content, bytes after)"""
     n = len(content)
     if kind == 'preamble':
-        return HEAD + b'#.preamble: indent=1, length=%d\n' % n, b'#.change:\n#..file:\n#...meta: length=3\n{}\n'
+        return HEAD + b'#.preamble: indent=1, length=%d\n' % n, b'#.change: encoding=utf-8, x=12\n#..file: encoding=utf-8\n#...meta: length=3\n{}\n'
     if kind == 'diff':
-        return (HEAD + b'#.change:\n#..file:\n#...meta: length=3\n{}\n#...diff: length=%d\n' % n,
-                b'#..file:\n#...meta: length=14\n{"path": "b"}\n')
+        return (HEAD + b'#.change: y=100\n#..file: encoding=latin-1\n#...meta: length=3\n{}\n#...diff: length=%d\n' % n,
+                b'#..file: encoding=utf-8, k=v1\n#...meta: length=14\n{"path": "b"}\n')
     if kind == 'last-diff':
         return HEAD + b'#.change:\n#..file:\n#...meta: length=3\n{}\n#...diff: length=%d\n' % n, b''
     raise ValueError(kind)
